@@ -8,7 +8,7 @@
                         tables.c 10834-10960, which supplies num_trees, and Python
                         TreeSequence._edge_diffs_forward trees.py 4808-4859 -> [edge_diffs_forward])
                        tsk_tree_position_next              (5191-5247)    -> [position_next]
-                       tsk_tree_clear                      (6612-6679)    -> [tree_clear]
+                       tsk_tree_clear                      (6612-6700)    -> [tree_clear] (fresh tree), [tree_clear_from]
                        tsk_tree_remove_branch/insert_branch/insert_root/remove_root (6219-6284)
                        tsk_tree_remove_edge / insert_edge  (6286-6366)    -> [remove_edge], [insert_edge]
                        tsk_tree_update_sample_lists        (6184-6217)    -> [update_sample_lists]
@@ -418,6 +418,48 @@ Definition tree_clear (q : tseq) (o : topts) : res tree :=
   let t := mkTree nul nul nul nul nul zero nul ns nt ls0 ls0 nxt 0 null_pos in
   if (o_thr o =? 1) && (0 <? nsmp) then insert_roots (q_N q) t (q_samples q) else Ok t.
 
+(* tsk_tree_clear called on a tree that is not fresh (end of iteration, tsk_tree_first on a
+   positioned tree).  Since fix fcbdf2e the tracked count that survives for a sample node is its
+   own status: num_tracked_samples[u] minus the counts of its children, computed before the
+   reset when num_edges > 0 (num_samples is the temporary).  Non-samples are zeroed, the virtual
+   root keeps the total.  Everything else is as in [tree_clear]. *)
+Fixpoint sub_children_nt (fuel : nat) (t : tree) (v acc : Z) : res Z :=
+  if v =? NULL then Ok acc else
+  match fuel with
+  | O%nat => Fuel
+  | S f => do x <- get (t_nt t) v; do nv <- get (t_rs t) v; sub_children_nt f t nv (acc - x)
+  end.
+
+Fixpoint own_tracked (t : tree) (ss : list Z) : res (list (Z * Z)) :=
+  match ss with
+  | [] => Ok []
+  | u :: r =>
+      do a <- get (t_nt t) u;
+      do c <- get (t_lc t) u;
+      do own <- (if 0 <? t_num_edges t then sub_children_nt (length (t_parent t)) t c a else Ok a);
+      do rest <- own_tracked t r;
+      Ok ((u, own) :: rest)
+  end.
+
+Fixpoint set_pairs (l : list Z) (ps : list (Z * Z)) : res (list Z) :=
+  match ps with [] => Ok l | (i, v) :: r => do l <- set l i v; set_pairs l r end.
+
+Definition tree_clear_from (q : tseq) (o : topts) (t0 : tree) : res tree :=
+  let N1 := Z.to_nat (q_N q + 1) in
+  let nul := repeat NULL N1 in
+  let zero := repeat 0 N1 in
+  let nsmp := zlen (q_samples q) in
+  do own <- own_tracked t0 (q_samples q);
+  do ntV <- get (t_nt t0) (q_N q);
+  do ns <- set zero (q_N q) nsmp;
+  do ns <- set_all ns (q_samples q) 1;
+  do nt <- set_pairs zero own;
+  do nt <- set nt (q_N q) ntV;
+  do ls0 <- (if o_lists o then set_enum nul (q_samples q) 0 else Ok []);
+  let nxt := if o_lists o then repeat NULL (length (q_samples q)) else [] in
+  let t := mkTree nul nul nul nul nul zero nul ns nt ls0 ls0 nxt 0 null_pos in
+  if (o_thr o =? 1) && (0 <? nsmp) then insert_roots (q_N q) t (q_samples q) else Ok t.
+
 Fixpoint remove_edges (q : tseq) (o : topts) (t : tree) (l : list iedge) : res tree :=
   match l with
   | [] => Ok t
@@ -438,7 +480,7 @@ Definition tree_next (q : tseq) (o : topts) (t : tree) : res (tree * bool) :=
     do t <- insert_edges q o t (p_in p);
     Ok (w_pos t p, true)
   else
-    do t <- tree_clear q o; Ok (t, false).
+    do t <- tree_clear_from q o t; Ok (t, false).
 
 (* tsk_tree_first = clear; next *)
 Definition tree_first (q : tseq) (o : topts) : res (tree * bool) :=
@@ -685,6 +727,13 @@ Definition obs_queries (q : tseq) (t : tree) : res (list (list Z)) :=
 Definition obs_diffs (ds : list diff) : list (list Z) :=
   flat_map (fun d => let '(l, r, o, i) := d in [[l; r]; o; i]) ds.
 
+(* the null state reached by calling next() on the last tree *)
+Definition final_clear (q : tseq) (o : topts) (ts : list tree) : res tree :=
+  match rev ts with
+  | t :: _ => tree_clear_from q o t
+  | [] => tree_clear q o
+  end.
+
 Definition model_obs (L : Z) (ns : list node) (es : list edge) (o : topts) (queries : bool)
   : res (list (list (list Z))) :=
   do q <- load L ns es;
@@ -693,9 +742,10 @@ Definition model_obs (L : Z) (ns : list node) (es : list edge) (o : topts) (quer
   do ts <- all_trees q o;
   do tobs <- mapM (fun t => if queries then do qs <- obs_queries q t; Ok (obs_tree o t ++ qs)
                             else Ok (obs_tree o t)) ts;
+  do tc <- final_clear q o ts;
   Ok ([ [map fst (q_I q); map fst (q_O q); q_bps q; [q_ntrees q];
          [if valid_edgesb L ns es then 1 else 0]; q_samples q; q_simap q];
-        obs_diffs d0; obs_diffs d1 ] ++ tobs).
+        obs_diffs d0; obs_diffs d1 ] ++ tobs ++ [obs_tree o tc]).
 
 Definition zlll_eqb := list_eqb zll_eqb.
 
